@@ -22,6 +22,7 @@ import (
 type targetPanic struct {
 	v     value
 	where string
+	stack string
 }
 
 // unsupported aborts the current path: the executor cannot model something.
@@ -208,6 +209,9 @@ type Interp struct {
 	funcsRun map[*ssa.Function]struct{}
 	mapRange map[string]int
 	worker   *Worker
+	infoCache map[*ssa.Function]*fnInfo
+	methCache map[methKey]*ssa.Function
+	failStack string
 }
 
 type deferred struct {
@@ -346,9 +350,30 @@ func (fr *frame) selectElem(elems []value, t *Term, et types.Type) value {
 	if allSame {
 		return elems[0]
 	}
-	res := i.toTerm(elems[len(elems)-1], w)
-	for k := len(elems) - 2; k >= 0; k-- {
-		res = i.ts.Ite(i.ts.Eq(t, i.ts.BV(uint64(k), t.w)), i.toTerm(elems[k], w), res)
+	// group consecutive equal elements into runs: one unsigned comparison per run
+	type run struct {
+		end int // exclusive
+		v   *Term
+	}
+	var runs []run
+	for k := 0; k < len(elems); k++ {
+		v := i.toTerm(elems[k], w)
+		if n := len(runs); n > 0 && runs[n-1].v == v {
+			runs[n-1].end = k + 1
+		} else {
+			runs = append(runs, run{k + 1, v})
+		}
+	}
+	res := runs[len(runs)-1].v
+	for k := len(runs) - 2; k >= 0; k-- {
+		r := runs[k]
+		var c *Term
+		if k > 0 && runs[k-1].end == r.end-1 {
+			c = i.ts.Eq(t, i.ts.BV(uint64(r.end-1), t.w))
+		} else {
+			c = i.ts.Cmp(OpULT, t, i.ts.BV(uint64(r.end), t.w))
+		}
+		res = i.ts.Ite(c, r.v, res)
 	}
 	return i.fromTerm(res, et)
 }
@@ -380,8 +405,19 @@ func (fr *frame) runDefers() {
 	}
 }
 
+type methKey struct {
+	t types.Type
+	m *types.Func
+}
+
 func (i *Interp) lookupMethod(typ types.Type, meth *types.Func) *ssa.Function {
-	return i.prog.LookupMethod(typ, meth.Pkg(), meth.Name())
+	k := methKey{typ, meth}
+	if f, ok := i.methCache[k]; ok {
+		return f
+	}
+	f := i.prog.LookupMethod(typ, meth.Pkg(), meth.Name())
+	i.methCache[k] = f
+	return f
 }
 
 func (fr *frame) prepareCall(ci *cinstr, call *ssa.CallCommon) (fn value, args []value) {
@@ -447,12 +483,16 @@ type hostFunc struct {
 const maxDepth = 400
 
 func (i *Interp) callSSA(caller *frame, callpos token.Pos, fn *ssa.Function, args []value, env []value) value {
-	fi := i.sh.info(fn)
-	fr := &frame{i: i, caller: caller, fi: fi, fn: fn, callpos: callpos}
-	if fi.intr != nil {
+	fi := i.infoCache[fn]
+	if fi == nil {
+		fi = i.sh.info(fn)
+		i.infoCache[fn] = fi
 		if i.funcsRun != nil {
 			i.funcsRun[fn] = struct{}{}
 		}
+	}
+	fr := &frame{i: i, caller: caller, fi: fi, fn: fn, callpos: callpos}
+	if fi.intr != nil {
 		return fi.intr(fr, args)
 	}
 	if fn.Name() == "init" && fn.Pkg != nil && fn.Signature.Recv() == nil && skipInit(fn.Pkg.Pkg.Path()) {
@@ -469,7 +509,7 @@ func (i *Interp) callSSA(caller *frame, callpos token.Pos, fn *ssa.Function, arg
 			}
 			return zero(fn.Signature.Results())
 		}
-		panic(unsupported{"no code for function: " + fi.name})
+		panic(unsupported{"no code for function: " + fi.name + " [" + stackOf(caller) + "]"})
 	}
 	if fn.TypeParams().Len() > 0 && len(fn.TypeArgs()) == 0 {
 		panic(unsupported{"uninstantiated generic: " + fi.name})
@@ -480,9 +520,6 @@ func (i *Interp) callSSA(caller *frame, callpos token.Pos, fn *ssa.Function, arg
 		panic(pathEnd{kind: "unwind", msg: "call depth exceeded in " + fi.name})
 	}
 	defer func() { i.depth-- }()
-	if i.funcsRun != nil {
-		i.funcsRun[fn] = struct{}{}
-	}
 	if i.trace {
 		fmt.Fprintf(os.Stderr, "%s> %s\n", strings.Repeat(" ", i.depth), fi.name)
 	}
@@ -524,6 +561,13 @@ func (fr *frame) run() {
 		case pathEnd, unsupported, failPanic:
 			panic(r)
 		case targetPanic:
+			if tp := r.(targetPanic); tp.stack == "" {
+				tp.stack = stackOf(fr)
+				if tp.where == "" {
+					tp.where = fr.fi.name
+				}
+				r = tp
+			}
 		default:
 			// a host run-time error inside the executor: an executor defect or an
 			// unmodelled situation, never a property of the program.
